@@ -21,6 +21,20 @@ class G:
         a = self.alpha[codec]
         return [self.r.choice(a) for _ in range(n)]
 
+    def code(self, codec, byte):
+        return self.info[codec]["try_from_ascii"][byte]
+
+    def value(self, codec, t):
+        """packed integer of the text (symbol i at bits [i*w, (i+1)*w))"""
+        w = self.width[codec]
+        return sum(self.code(codec, b) << (i * w) for i, b in enumerate(t))
+
+    def canon_text(self, codec, n):
+        """text over the display characters of items() (so that display(parse t) == t)"""
+        info = self.info[codec]
+        chars = [info["to_char"][c] for c in info["items"]]
+        return [self.r.choice(chars) for _ in range(n)]
+
 
 ENTRIES_TEXT = ["str", "string", "refstring", "fromstr"]
 ENTRIES_BYTES = ["bytes", "vec"]
@@ -201,6 +215,521 @@ def gen_C03(g, tier):
         # slices of owned copies, static k-mer derefs
         t = g.text(c, 9)
         lines.append(f"{c} show sl r 1 3 own sl r 2 8 p str {hx(t)}")
+    return lines
+
+
+def rand_value(g, c, depth, maxlen=70):
+    """random owned-value expression with its symbol count: parsed / collected / copied from an offset slice /
+    reversed / complemented / masked / edited / rebuilt from its raw image"""
+    r = g.r
+    w = g.width[c]
+    info = g.info[c]
+    if depth <= 0 or r.random() < 0.3:
+        n = r.choice([0, 1, 2, 3, 5, 64 // w - 1, 64 // w, 64 // w + 1, r.randrange(0, maxlen)])
+        n = min(n, maxlen)
+        e = r.choice(ENTRIES_TEXT + ENTRIES_BYTES + ENTRIES_SYMS)
+        return f"p {e} {hx(g.text(c, n))}", n
+    k = r.randrange(14)
+    if k == 0:
+        e, n = rand_slice(g, c, depth - 1, maxlen)
+        return f"own {e}", n
+    if k == 1:
+        e, n = rand_slice(g, c, depth - 1, maxlen)
+        return f"into {e}", n
+    v, n = rand_value(g, c, depth - 1, maxlen)
+    if k == 2:
+        ops = ["rev", "torev"] + (["comp", "revcomp", "tocomp", "torevcomp"] if info["has_comp"] else []) + (["mask", "unmask", "tomask", "tounmask"] if info["has_mask"] else [])
+        return f"{r.choice(ops)} {v}", n
+    if k == 3:
+        e, n2 = rand_slice(g, c, depth - 1, maxlen)
+        ops = ["storev"] + (["stocomp", "storevcomp"] if info["has_comp"] else [])
+        return f"{r.choice(ops)} {e}", n2
+    if k == 4:
+        return f"push {r.randrange(50)} {v}", n + 1
+    if k == 5:
+        m = r.randrange(0, 6)
+        return f"ext {hx(g.text(c, m))} {v}", n + m
+    if k in (6, 7):
+        e, m = rand_slice(g, c, depth - 1, 20)
+        return f"{'append' if k == 6 else 'prepend'} {v} {e}", n + m
+    if k == 8:
+        e, m = rand_slice(g, c, depth - 1, 20)
+        i = r.randrange(n + 1)
+        return f"insert {i} {v} {e}", n + m
+    if k == 9:
+        a = r.randrange(n + 1)
+        b = r.randrange(a, n + 1)
+        return f"remove r {a} {b} {v}", n - (b - a)
+    if k == 10:
+        m = r.randrange(n + 3)
+        return f"trunc {m} {v}", min(n, m)
+    if k == 11:
+        return f"clone {v}", n
+    if k == 12:
+        return f"fromraw {n} {v}", n
+    return f"clear {v}", 0
+
+
+def rand_slice(g, c, depth, maxlen=70):
+    r = g.r
+    v, n = rand_value(g, c, depth, maxlen)
+    if r.random() < 0.4:
+        return v, n
+    return slice_expr(g, v, n, r.randrange(1, 3))
+
+
+def offset_slice(g, c, t, lead):
+    """the text `t` presented as a window starting `lead` symbols into a longer parent"""
+    pre = g.text(c, lead)
+    post = g.text(c, g.r.randrange(0, 3))
+    return f"sl r {lead} {lead + len(t)} p str {hx(pre + t + post)}"
+
+
+REM_FORMS = ["r", "ri", "rt", "rti", "rf", "full", "bie", "bii", "biu", "bee", "bei", "beu", "bue", "bui", "buu"]
+
+
+def remove_args(form, s, e, n):
+    """protocol (A, B) for removing the half-open symbol range [s, e) of a length-n sequence with this RangeBounds form"""
+    sk = {"r": "i", "ri": "i", "rt": "u", "rti": "u", "rf": "i", "full": "u"}.get(form, form[1] if form.startswith("b") else None)
+    ek = {"r": "e", "ri": "i", "rt": "e", "rti": "i", "rf": "u", "full": "u"}.get(form, form[2] if form.startswith("b") else None)
+    if sk == "i":
+        A = s
+    elif sk == "e":
+        if s == 0:
+            return None
+        A = s - 1
+    else:
+        if s != 0:
+            return None
+        A = 0
+    if ek == "e":
+        B = e
+    elif ek == "i":
+        if e == 0:
+            return None
+        B = e - 1
+    else:
+        if e != n:
+            return None
+        B = 0
+    return A, B
+
+
+def gen_C06(g, tier):
+    r = g.r
+    lines = []
+    # bounded-exhaustive: all histories of length <= 2 (quick) / 3 (thorough) over a small op set on short dna sequences
+    import itertools
+    c = "dna"
+    small_ops = []
+    for n0 in (0, 1, 3):
+        small_ops.append(n0)
+    def ops_for(n):
+        out = [("push 1", n + 1), ("ext 4354", n + 2), ("append _ sl r 1 3 p str 41434754", n + 2), ("prepend _ sl r 2 3 p str 41434754", n + 1), ("trunc %d" % max(n - 1, 0), max(n - 1, 0)), ("clear", 0)]
+        for i in sorted({0, n // 2, n}):
+            out.append(("insert %d _ sl r 1 2 p str 4754" % i, n + 1))
+        for (a, b) in sorted({(0, 0), (0, min(1, n)), (n // 2, n), (0, n)}):
+            out.append(("remove r %d %d" % (a, b), n - (b - a)))
+        return out
+    def build(expr, n, depth):
+        lines.append(f"{c} show {expr}")
+        if depth == 0:
+            return
+        for (op, n2) in ops_for(n):
+            if "_" in op:
+                head, tail = op.split(" _ ")
+                e2 = f"{head} {expr} {tail}"
+            else:
+                e2 = f"{op} {expr}"
+            build(e2, n2, depth - 1)
+    for n0 in (0, 2):
+        build(f"p str {hx(g.text(c, n0))}", n0, 2 if tier == "quick" else 3)
+    # every edit with every in-bounds argument on sequences around the word boundary, argument slices at every offset
+    for c in CODECS:
+        w = g.width[c]
+        for n in ([64 // w - 1, 64 // w + 2] if tier == "quick" else [1, 64 // w - 1, 64 // w, 64 // w + 2, 128 // w + 1]):
+            t = g.text(c, n)
+            base = f"p str {hx(t)}"
+            positions = sorted({0, 1, n // 2, n - 1, n}) if tier == "quick" else range(n + 1)
+            for lead in (range(0, 64 // w + 1, max(1, (64 // w) // 4)) if tier == "quick" else range(0, 64 // w + 2)):
+                arg = offset_slice(g, c, g.text(c, r.choice([0, 1, 2, 5])), lead)
+                i = r.choice(list(positions))
+                if 0 <= i <= n:
+                    lines.append(f"{c} show insert {i} {base} {arg}")
+                lines.append(f"{c} show append {base} {arg}")
+                lines.append(f"{c} show prepend {base} {arg}")
+            for s in positions:
+                for e in positions:
+                    if 0 <= s <= e <= n:
+                        for f in (REM_FORMS if tier != "quick" else r.sample(REM_FORMS, 5)):
+                            ab = remove_args(f, s, e, n)
+                            if ab:
+                                lines.append(f"{c} show remove {f} {ab[0]} {ab[1]} {base}")
+            for m in sorted({0, 1, n - 1, n, n + 1, n + 5}):
+                if m >= 0:
+                    lines.append(f"{c} show trunc {m} {base}")
+            lines.append(f"{c} show clear {base}")
+            # out-of-bounds arguments
+            lines.append(f"{c} show insert {n + 1} {base} p str -")
+            lines.append(f"{c} show remove r 0 {n + 1} {base}")
+            # (reversed bounds s > e are outside the property; in release bitvec's drain does not check them, so they are not generated)
+            lines.append(f"{c} show remove bee {n} {n} {base}")
+            lines.append(f"{c} show remove bii 0 {n} {base}")
+        # long random histories crossing word boundaries, from every production route
+        for _ in range(6 if tier == "quick" else 150):
+            v, n = rand_value(g, c, r.randrange(2, 7 if tier == "quick" else 12), 200)
+            lines.append(f"{c} show {v}")
+            lines.append(f"{c} raw {v}")
+    return lines
+
+
+def gen_C07(g, tier):
+    r = g.r
+    lines = []
+    for c in CODECS:
+        w = g.width[c]
+        info = g.info[c]
+        ops_v = ["rev", "torev"] + (["comp", "revcomp", "tocomp", "torevcomp"] if info["has_comp"] else [])
+        ops_s = ["storev"] + (["stocomp", "storevcomp"] if info["has_comp"] else [])
+        Ls = boundary_lengths(w, 2 if tier == "quick" else 4)
+        for n in Ls:
+            t = g.text(c, n)
+            base = f"p str {hx(t)}"
+            for op in ops_v:
+                lines.append(f"{c} show {op} {base}")
+                lines.append(f"{c} show {op} {op} {base}")  # applied twice
+            if info["has_comp"]:
+                lines.append(f"{c} show rev comp {base}")
+                lines.append(f"{c} show comp rev {base}")
+            leads = range(0, 64 // w + 1, max(1, (64 // w) // 4)) if tier == "quick" else range(0, 64 // w + 2)
+            for lead in leads:
+                sl = offset_slice(g, c, t, lead)
+                for op in ops_s:
+                    lines.append(f"{c} show {op} {sl}")
+                lines.append(f"{c} show rev own {sl}")
+        # unsupported complement must be refused by both sides
+        if not info["has_comp"]:
+            lines.append(f"{c} show comp p str {hx(g.text(c, 3))}")
+        for _ in range(5 if tier == "quick" else 100):
+            v, n = rand_value(g, c, r.randrange(1, 5), 300)
+            for op in ops_v:
+                lines.append(f"{c} show {op} {v}")
+    return lines
+
+
+def gen_C11(g, tier):
+    r = g.r
+    lines = []
+    for c in CODECS:
+        w = g.width[c]
+        for n in ([0, 1, 5, 64 // w + 1] if tier == "quick" else [0, 1, 2, 5, 64 // w - 1, 64 // w, 64 // w + 1, 128 // w + 3]):
+            t = g.text(c, n)
+            leads = [0, 1, 64 // w - 1] if tier == "quick" else range(0, 64 // w + 2)
+            for lead in leads:
+                sl = offset_slice(g, c, t, lead)
+                lines.append(f"{c} iter {sl}")
+                lines.append(f"{c} intoiter {sl}")
+                lines.append(f"{c} reviter {sl}")
+                widths = range(1, n + 3) if n <= 12 or tier != "quick" else sorted({1, 2, 3, n // 2, n - 1, n, n + 1, n + 2})
+                for wd in widths:
+                    lines.append(f"{c} windows {wd} {sl}")
+                    lines.append(f"{c} chunks {wd} {sl}")
+                other = offset_slice(g, c, g.text(c, r.randrange(0, 6)), r.randrange(0, 5))
+                lines.append(f"{c} chain {sl} {other}")
+            lines.append(f"{c} intoiterv p str {hx(t)}")
+            lines.append(f"{c} chunksvec 2 p str {hx(t)}")
+            lines.append(f"{c} windows 0 p str {hx(t)}")
+        for _ in range(5 if tier == "quick" else 60):
+            e, n = rand_slice(g, c, 3, 150)
+            lines.append(f"{c} iter {e}")
+            lines.append(f"{c} reviter {e}")
+            lines.append(f"{c} windows {r.randrange(1, n + 3)} {e}")
+            lines.append(f"{c} chunks {r.randrange(1, n + 3)} {e}")
+    return lines
+
+
+STORAGES = [("usize", 64), ("u64", 64), ("u128", 128)]
+EQ_PAIRINGS = ["seq_slice", "seq_refslice", "refseq_seq", "seq_refseq", "seq_seq", "slice_slice", "refslice_slice",
+               "refslice_refslice", "slice_seq", "refslice_seq", "ne_slice_slice"]
+
+
+def fitting_ks(w, sbits, tier, r):
+    ks = list(range(1, sbits // w + 1))
+    if tier == "quick" and len(ks) > 8:
+        keep = {1, 2, 3, ks[-1], ks[-2], len(ks) // 2}
+        keep |= set(r.sample(ks, 3))
+        ks = sorted(keep)
+    return ks
+
+
+def variants_of(g, c, t):
+    """(label, text) pairs related to t: equal, one symbol changed, proper prefix, proper suffix, empty"""
+    r = g.r
+    out = [("equal", list(t))]
+    if t:
+        i = r.randrange(len(t))
+        a = [x for x in g.alpha[c] if g.code(c, x) != g.code(c, t[i])]
+        if a:
+            out.append(("onesym", t[:i] + [r.choice(a)] + t[i + 1:]))
+        for i in (0, len(t) - 1):
+            a = [x for x in g.alpha[c] if g.code(c, x) != g.code(c, t[i])]
+            if a:
+                out.append(("edge", t[:i] + [r.choice(a)] + t[i + 1:]))
+        out.append(("prefix", t[:-1]))
+        out.append(("suffix", t[1:]))
+        out.append(("longer", t + g.text(c, 1)))
+    out.append(("empty", []))
+    return out
+
+
+def gen_C02(g, tier):
+    r = g.r
+    lines = []
+    for c in CODECS:
+        w = g.width[c]
+        per = 64 // w
+        ns = [0, 1, per - 1, per, per + 1] if tier == "quick" else [0, 1, 2, per - 1, per, per + 1, 2 * per + 1]
+        for n in ns:
+            t = g.text(c, n)
+            leads = [0, 1, per // 2, per - 1] if tier == "quick" else list(range(0, per + 2))
+            for lead in leads:
+                a = offset_slice(g, c, t, lead)
+                lines.append(f"{c} hash {a}")
+                lines.append(f"{c} hashv own {a}")
+                for (label, t2) in variants_of(g, c, t):
+                    lead2 = r.choice(leads)
+                    b = offset_slice(g, c, t2, lead2)
+                    prs = EQ_PAIRINGS if tier != "quick" else r.sample(EQ_PAIRINGS, 3)
+                    for pr in prs:
+                        lines.append(f"{c} eq {pr} {a} {b}")
+                # equal to its own displayed text and to no other sequence's text
+                ct = g.canon_text(c, n)
+                sl = offset_slice(g, c, ct, lead)
+                lines.append(f"{c} eqstr {hx(ct)} {sl}")
+                for (label, t2) in variants_of(g, c, ct)[1:]:
+                    lines.append(f"{c} eqstr {hx(t2)} {sl}")
+                lines.append(f"{c} eqstr {hx(ct[:-1] + [0x21]) if ct else '21'} {sl}")
+                # map lookup by a borrowed slice
+                keys = [g.text(c, r.choice([n, n, max(n - 1, 0), n + 1])) for _ in range(3)] + [t]
+                r.shuffle(keys)
+                ks = " ".join(f"p str {hx(k)}" for k in keys)
+                lines.append(f"{c} mapget {len(keys)} {ks} {a}")
+                lines.append(f"{c} mapget {len(keys)} {ks} {offset_slice(g, c, g.text(c, n), lead)}")
+        # k-mers: every K that fits, every storage
+        for (st, sbits) in STORAGES:
+            for K in fitting_ks(w, sbits, tier, r):
+                t = g.text(c, K)
+                v = g.value(c, t)
+                lead = r.randrange(0, per + 1)
+                sl = offset_slice(g, c, t, lead)
+                lines.append(f"{c} kmer hash {K} {st} {v}")
+                lines.append(f"{c} hash {sl}")
+                lines.append(f"{c} kmer try {K} {st} {sl}")
+                for (label, t2) in variants_of(g, c, t):
+                    for pr in ("slice", "refslice"):
+                        lines.append(f"{c} kmer eq {K} {st} {pr} {v} {offset_slice(g, c, t2, r.randrange(0, per + 1))}")
+                    if len(t2) == K:
+                        lines.append(f"{c} kmer eqk {K} {st} {v} {g.value(c, t2)}")
+                if st == "usize":
+                    ct = g.canon_text(c, K)
+                    cv = g.value(c, ct)
+                    lines.append(f"{c} kmer eqstr {K} {st} {cv} {hx(ct)}")
+                    lines.append(f"{c} kmer eqstr {K} {st} {cv} {hx(ct[:-1])}")
+                    lines.append(f"{c} kmer eqstr {K} {st} {v} {hx(ct)}")
+                    lines.append(f"{c} kmer eqseq {K} {st} {v} p str {hx(t)}")
+                    lines.append(f"{c} kmer eqseq {K} {st} {v} own {sl}")
+                    lines.append(f"{c} kmer eqseq {K} {st} {v} p str {hx(t[:-1])}")
+                    long = g.text(c, K + r.randrange(0, 6))
+                    lines.append(f"{c} kmer iterhash {K} {st} {offset_slice(g, c, long, lead)}")
+    return lines
+
+
+def gen_C04(g, tier):
+    r = g.r
+    lines = []
+    for c in CODECS:
+        w = g.width[c]
+        per = 64 // w
+        for n in sorted({0, 1, 2, per - 1, per, per + 1, 8 // w, 8 // w + 1}):
+            t = g.text(c, n)
+            leads = [0, 1, per - 1] if tier == "quick" else range(0, per + 2)
+            for lead in leads:
+                sl = offset_slice(g, c, t, lead)
+                lines.append(f"{c} usize {sl}")
+                lines.append(f"{c} u8 {sl}")
+                lines.append(f"{c} usizev own {sl}")
+        # k-mer <-> integer, display of integers below 2^(K*w)
+        for K in fitting_ks(w, 64, tier, r):
+            top = 1 << (K * w)
+            vals = list(range(0, min(16, top))) + [top - 1, top // 2] + [r.randrange(top) for _ in range(3 if tier == "quick" else 20)]
+            for v in vals:
+                lines.append(f"{c} kmer int {K} usize {v}")
+                lines.append(f"{c} kmer fromint {K} usize {v}")
+                lines.append(f"{c} kmer fromint64 {K} usize {v}")
+                lines.append(f"{c} kmer deref {K} usize {v}")
+            t = g.text(c, K)
+            lines.append(f"{c} kmer show {K} usize {g.value(c, t)}")
+            lines.append(f"{c} usize p str {hx(t)}")
+        # raw image of owned values however produced; rebuilding with every count
+        for _ in range(10 if tier == "quick" else 150):
+            v, n = rand_value(g, c, r.randrange(0, 5), 3 * per)
+            lines.append(f"{c} raw {v}")
+            lines.append(f"{c} show fromraw {n} {v}")
+        for n in ([per + 1, 2 * per] if tier == "quick" else [0, 1, per - 1, per, per + 1, 2 * per, 2 * per + 3]):
+            t = g.text(c, n)
+            words = (n * w + 63) // 64
+            for m in range(0, (words * 64) // w + 3):
+                lines.append(f"{c} show fromraw {m} p str {hx(t)}")
+            lines.append(f"{c} show fromraw {min((1 << 64) // w, (1 << 64) - 1)} p str {hx(t)}")
+            lines.append(f"{c} show fromraw {(1 << 64) - 1} p str {hx(t)}")
+        for _ in range(5 if tier == "quick" else 60):
+            k = r.randrange(0, 4)
+            ws = [r.randrange(1 << 64) for _ in range(k)]
+            m = r.randrange(0, (k * 64) // w + 3)
+            lines.append(f"{c} show fromwords {m} {k} {' '.join(map(str, ws))}".rstrip())
+            lines.append(f"{c} raw fromwords {m} {k} {' '.join(map(str, ws))}".rstrip())
+    return lines
+
+
+def gen_C08(g, tier):
+    r = g.r
+    lines = []
+    for c in CODECS:
+        w = g.width[c]
+        per = 64 // w
+        for K in fitting_ks(w, 64, tier, r):
+            for n in sorted({0, K - 1, K, K + 1, K + 4}):
+                t = g.text(c, n)
+                leads = [0, r.randrange(1, per + 1)] if tier == "quick" else [0, 1, per - 1, per, r.randrange(0, per + 1)]
+                for lead in leads:
+                    sl = offset_slice(g, c, t, lead)
+                    lines.append(f"{c} kmers {K} {sl}")
+                    lines.append(f"{c} windows {K} {sl}")
+                    lines.append(f"{c} kmer try {K} usize {sl}")
+                    lines.append(f"{c} show kd {K} {sl}")
+                    lines.append(f"{c} show ofkmer {K} {sl}")
+                lines.append(f"{c} kmer tryseq {K} usize p str {hx(t)}")
+                lines.append(f"{c} kmer unsafefrom {K} usize p str {hx(t)}")
+            ct = g.canon_text(c, K)
+            v = g.value(c, ct)
+            lines.append(f"{c} kmer show {K} usize {v}")
+            lines.append(f"{c} kmer deref {K} usize {v}")
+            lines.append(f"{c} kmer toseq {K} usize {v}")
+            lines.append(f"{c} kmer len {K} usize {v}")
+        for (st, sbits) in STORAGES:
+            for K in fitting_ks(w, sbits, tier, r):
+                t = g.text(c, K)
+                for n2, t2 in ((K, t), (K - 1, t[:-1]), (K + 1, t + g.text(c, 1))):
+                    lines.append(f"{c} kmer try {K} {st} {offset_slice(g, c, t2, r.randrange(0, per + 1))}")
+                    lines.append(f"{c} kmer fromstr {K} {st} {hx(t2)}")
+                bad = t[:]
+                bad[r.randrange(K)] = r.choice(bad_bytes(g, c, True))
+                lines.append(f"{c} kmer fromstr {K} {st} {hx(bad)}")
+                lines.append(f"{c} kmer show {K} {st} {g.value(c, g.canon_text(c, K))}")
+            # K one past what fits must be refused by both sides
+            lines.append(f"{c} kmer show {sbits // w + 1} {st} 0")
+    return lines
+
+
+def kmer_samples(g, c, K, st_bits, tier):
+    r = g.r
+    w = g.width[c]
+    codes = g.info[c]["items"]
+    top = 1 << (K * w)
+    if K * w <= (8 if tier == "quick" else 12):
+        # all canonical k-mers
+        import itertools
+        return [sum(cd << (i * w) for i, cd in enumerate(cs)) for cs in itertools.product(codes, repeat=K)][: 5000]
+    out = []
+    lo, hi = min(codes), max(codes)
+    for pat in ([lo] * K, [hi] * K, [lo] * (K - 1) + [hi], [hi] + [lo] * (K - 1), [codes[i % len(codes)] for i in range(K)]):
+        out.append(sum(cd << (i * w) for i, cd in enumerate(pat)))
+    for _ in range(4 if tier == "quick" else 40):
+        out.append(sum(r.choice(codes) << (i * w) for i in range(K)))
+    return out
+
+
+def gen_C09(g, tier):
+    r = g.r
+    lines = []
+    rots = [0, 1, 2, 3, 7, 65535, 65536, 65537, (1 << 32) - 1]
+    for c in CODECS:
+        w = g.width[c]
+        nitems = len(g.info[c]["items"])
+        for (st, sbits) in STORAGES:
+            for K in fitting_ks(w, sbits, tier, r):
+                vals = kmer_samples(g, c, K, sbits, tier)
+                if len(vals) > 300 and st != "usize":
+                    vals = r.sample(vals, 60)
+                for v in vals:
+                    for n in (r.sample(rots, 2) + [K, 2 * K, r.randrange(0, 3 * K + 1)]):
+                        lines.append(f"{c} kmer rotl {K} {st} {v} {n}")
+                        lines.append(f"{c} kmer rotr {K} {st} {v} {n}")
+                    for i in (range(nitems) if nitems <= 5 else r.sample(range(nitems), 3)):
+                        lines.append(f"{c} kmer pushl {K} {st} {v} {i}")
+                        lines.append(f"{c} kmer pushr {K} {st} {v} {i}")
+                    if st == "usize":
+                        lines.append(f"{c} kmer rev {K} {st} {v}")
+                        lines.append(f"{c} kmer revmut {K} {st} {v}")
+                        lines.append(f"{c} kmer toseq {K} {st} {v}")
+                        if c == "dna":
+                            for op in ("comp", "revcomp", "compmut", "revcompmut", "canon"):
+                                lines.append(f"{c} kmer {op} {K} {st} {v}")
+        # the equivalent sequence operations on the same symbols (for the model-level comparison in the theorems)
+        for K in fitting_ks(w, 64, tier, r)[:6]:
+            t = g.text(c, K)
+            lines.append(f"{c} show rev p str {hx(t)}")
+            lines.append(f"{c} kmer rev {K} usize {g.value(c, t)}")
+    return lines
+
+
+def gen_C10(g, tier):
+    r = g.r
+    lines = []
+    ordc = [c for c in CODECS if g.info[c]["has_ord"]]
+    for c in ordc:
+        w = g.width[c]
+        codes = g.info[c]["items"]
+        per = 64 // w
+        import itertools
+        for K in (1, 2, 3):
+            if K * w > 64:
+                continue
+            allk = [sum(cd << (i * w) for i, cd in enumerate(cs)) for cs in itertools.product(codes, repeat=K)]
+            if len(allk) > 70:
+                allk = r.sample(allk, 70 if tier != "quick" else 40)
+            for a in allk:
+                for b in allk:
+                    if tier == "quick" and r.random() < 0.5 and a != b:
+                        continue
+                    lines.append(f"{c} kmer cmp {K} usize {a} {b}")
+        for (st, sbits) in STORAGES:
+            for K in fitting_ks(w, sbits, tier, r):
+                for _ in range(3 if tier == "quick" else 20):
+                    ta, tb = g.text(c, K), g.text(c, K)
+                    if r.random() < 0.4:
+                        i = r.randrange(K)
+                        tb = ta[:i] + [r.choice(g.alpha[c])] + ta[i + 1:]
+                    lines.append(f"{c} kmer cmp {K} {st} {g.value(c, ta)} {g.value(c, tb)}")
+                    if st == "usize":
+                        # owned sequences with the same content order the same way
+                        lines.append(f"{c} cmp p str {hx(ta)} p str {hx(tb)}")
+        for _ in range(20 if tier == "quick" else 300):
+            n = r.randrange(0, 3 * per)
+            ta = g.text(c, n)
+            tb = g.text(c, n)
+            if n and r.random() < 0.5:
+                i = r.randrange(n)
+                tb = ta[:i] + [r.choice(g.alpha[c])] + ta[i + 1:]
+            lines.append(f"{c} cmp p str {hx(ta)} own {offset_slice(g, c, tb, r.randrange(0, per + 1))}")
+            lines.append(f"{c} cmp p str {hx(ta)} p str {hx(g.text(c, r.randrange(0, 2 * per)))}")
+        for K in fitting_ks(w, 64, tier, r):
+            for _ in range(2 if tier == "quick" else 10):
+                n = r.randrange(K, K + 12)
+                lines.append(f"{c} kmer minmax {K} usize {offset_slice(g, c, g.text(c, n), r.randrange(0, per + 1))}")
+    # codecs without Ord must be refused by both sides
+    lines.append("iupac cmp p str 41 p str 43")
+    lines.append("amino kmer cmp 2 usize 1 2")
     return lines
 
 
